@@ -22,7 +22,11 @@ NESTED = [["tuple", ["startswith", "a"]], ["tuple", ["lit", 0], ["endswith", "a"
           ["gen", "list", ["lit", 0]], ["gen", "list", ["lit", "a", 0]], ["gen", "list", ["startswith", "a"]], ["gen", "set", ["lit", 0]],
           ["gen", "dict", "str", ["lit", 1]], ["gen", "Mapping", ["startswith", "k"], "int"], ["gen", "list", ["tuple", "int"]],
           ["ounion", "int", ["startswith", "a"]], ["ounion", ["lit", "a"], "float"], ["inter", "str", ["endswith", "z"]],
-          ["inter", ["regexp", "^a"], "str"], ["ounion", ["tuple", "int"], ["gen", "list", "int"]], ["inter", ["gen", "dict", "str", "int"], ["haskey", "k"]]]
+          ["inter", ["regexp", "^a"], "str"], ["ounion", ["tuple", "int"], ["gen", "list", "int"]], ["inter", ["gen", "dict", "str", "int"], ["haskey", "k"]],
+          # combinations of combinations in which NO direct member is value-dependent
+          ["ounion", "int", ["inter", "str", ["startswith", "a"]]], ["inter", "str", ["ounion", ["startswith", "a"], ["endswith", "z"]]],
+          ["ounion", "float", ["inter", ["regexp", "^a"], ["endswith", "z"]]], ["ounion", "int", ["ounion", "float", ["lit", "a"]]],
+          ["inter", "O", ["inter", "str", ["endswith", "z"]]], ["ounion", ["inter", "str", ["startswith", "a"]], ["inter", "int", ["lit", 7]]]]
 
 
 def combos(tier):
@@ -211,7 +215,8 @@ def main(tier):
         rule="type under test in {Literal with 1-4 values over int / str / mixed; tuple[...] arity 0-2 over int, str, Literal; list / "
              "Sequence / Collection / set / Mapping / dict element types; Regexp, StartsWith, EndsWith, HasKey; element types that are "
              "themselves value types (tuple of StartsWith / of tuple / of list, list of Literal / of StartsWith / of tuple, dict with a Literal "
-             "value, Mapping with a StartsWith key); value types combined with plain classes; & and | of pairs "
+             "value, Mapping with a StartsWith key); value types combined with plain classes, also two levels down with no directly "
+             "value-dependent member; & and | of pairs "
              "(thorough: nesting depth 2)} x companions (0-5 single-valued Literal methods, same or other value type, disjoint or "
              "sharing a value; a second dependent position on every method / on the method under test only / on the companions only, "
              "called with a second argument inside and outside it; all registration orders for <= 2 companions; object fallback at priority "
